@@ -274,6 +274,43 @@ def return_slot_obligations(prog, R):
             out.append((f, d.ln or f.ln, ok,
                         '%s reads the returned value out of %s%s; the slot is emptied on every normal path afterwards (otherwise the returned object stays referenced after the '
                         'call: its destructor and its @tracked fields are then missed when it dies at teardown)' % (f.short, slot, ' (moved)' if moved else ''), 'return-slot:' + f.short))
+    # activations that produce no result (constructor bodies; destructor bodies save and restore the slot): a `return this;` /
+    # `return x;` executed in the body still writes the slot, so the activation empties it (or puts the saved value back) before it
+    # ends — `Foo f = new Foo(1); destroy f;` otherwise runs ~Foo only at the next call
+    seen = {o[0].name for o in out}
+    for f in [x for x in R.ev_methods() if x.body and x.name not in seen]:
+        flags = set()
+        for lp in SX.walk(f.body, into_lambdas=False):
+            if lp.get('k') not in ('for', 'forrange', 'while'):
+                continue
+            runs = any(c.get('k') == 'mcall' and c.get('callee') == ex.name for c in SX.walk(lp['body'], into_lambdas=False))
+            if not runs:
+                continue
+            for i_ in SX.walk(lp['body'], into_lambdas=False):
+                c_ = SX.strip(i_.get('c')) if i_.get('k') == 'if' else None
+                if SX.is_node(c_) and SX.is_this_member(c_) and c_.get('t') == 'bool' and any(b.get('k') == 'break' for b in SX.walk(i_['t'], into_lambdas=False)):
+                    flags.add(c_['name'])
+        if len(flags) != 1:
+            continue
+        flag = next(iter(flags))
+        saved = {v['id'] for v in SX.walk(f.body, into_lambdas=False) if v['k'] == 'var' and SX.is_node(v.get('init')) and SX.is_this_member(SX.strip(v['init']), flag)}
+        restores = [n for n in SX.walk(f.body, into_lambdas=False) for w in [SX.write_target(n)] if w and w[2] == '=' and SX.is_this_member(SX.strip(w[0]), flag) and
+                    SX.is_node(SX.strip(w[1])) and SX.strip(w[1]).get('id') in saved]
+        if not restores:
+            continue        # not an activation of its own (a block statement: the return travels on)
+        g = prog.cfg(f)
+        loops = [n for n in g.nodes if n.kind == 'loophead' and any(c.get('k') == 'mcall' and c.get('callee') == ex.name for c in SX.walk(n.e.get('body'), into_lambdas=False))
+                 and any(SX.is_this_member(SX.strip(i_.get('c')), flag) for i_ in SX.walk(n.e.get('body'), into_lambdas=False) if i_.get('k') == 'if' and SX.is_node(i_.get('c')))]
+        if not loops:
+            continue
+        sv = {v['id'] for v in SX.walk(f.body, into_lambdas=False) if v['k'] == 'var' and SX.is_node(v.get('init')) and SX.is_this_member(SX.strip(v['init']), slot)}
+        resets = [n for n, l, r, op in g.writes() if op == '=' and SX.is_this_member(SX.strip(l), slot) and SX.is_node(SX.strip(r)) and
+                  ((SX.strip(r).get('k') in ('initlist', 'construct') and not (SX.strip(r).get('items') or SX.real_args(SX.strip(r)))) or SX.strip(r).get('id') in sv)]
+        ok = bool(resets) and all(g.must_follow(lh, resets) for lh in loops)
+        out.append((f, loops[0].ln or f.ln, ok,
+                    '%s runs a body in which `return` writes %s, and produces no result from it; the slot is emptied (or the saved value put back) on every normal path after '
+                    'the body (otherwise the object named by `return this;` stays referenced after its last reference is gone and its destructor runs late)' % (f.short, slot),
+                    'return-slot:' + f.short))
     return out
 
 
